@@ -57,8 +57,20 @@ def run(pid):
         sys.exit(1 if p.returncode else 0)
     depth = 5 if c.tier == "quick" else 6
     depth = int(os.environ.get("VP_DEPTH", depth))
-    deadline = c.t0 + c.budget(400, 1500)
-    res = histbfs.bfs(c, exe, depth, deadline, env, c.scratch, crash_sig=crash_sig, per_item_timeout=60.0)
+    deadline = c.t0 + c.budget(400, 3000)   # cut-offs, not targets: an idle 16-core machine needs about 1 min (quick) / 6 min (thorough)
+    res = histbfs.bfs(c, exe, depth, deadline, env, c.scratch, crash_sig=crash_sig, per_item_timeout=600.0)
+    # a worker that ran out of time on an overloaded machine is not an observation: re-run every timeout alone with a
+    # generous limit; if the single run passes, the exploration lost a state expansion => harness error, not a verdict
+    for sig, detail, hist in res.violations:
+        if "timeout" in sig:
+            import subprocess
+            try:
+                p = subprocess.run([exe, "replay", hist or ";"], env=env, cwd=c.scratch, stdout=subprocess.PIPE,
+                                   stderr=subprocess.PIPE, text=True, timeout=900)
+                if p.returncode == 0:
+                    c.harness_error("a worker timed out on history %r but the history passes when run alone (overloaded machine?); re-run the check" % hist)
+            except subprocess.TimeoutExpired:
+                pass
     # one readable rendering per signature (of its shortest history); describing costs a process start each
     shortest = {}
     for sig, detail, hist in res.violations:
@@ -67,7 +79,7 @@ def run(pid):
     readable = {sig: histbfs.describe(exe, h, env) for sig, h in shortest.items()}
     for sig, detail, hist in res.violations:
         c.violation(sig, detail + (" :: history: " + readable[sig] if shortest[sig] == hist else ""), {"history": hist})
-    if res.depth_completed < 4 and not res.violations:
+    if res.depth_completed < 4 and not res.violations and not res.budget_hit:   # out of budget = exit 0 with exhaustive:false
         c.harness_error("BFS did not complete depth 4 within the budget (depth_completed=%d)" % res.depth_completed)
     cover = read_cover(covdir)
     # vacuity guards: the situations the property is about must have been reached
@@ -76,10 +88,12 @@ def run(pid):
     need = ["reserve:fits", "reserve:grow", "reserve:fragmented", "state:two-internal-holes", "repack-moved:resize", "repack-moved:setAlignment",
             "repack-moved:reserve", "slice-outlives-parent", "setAlignment:live", "threw:resize:below", "state:unaligned-offset",
             "release:partial", "release:covered", "slice:covered"]
-    if not res.violations:
+    if not res.violations and not res.budget_hit:
         for k in need:
             c.vacuity(cover.get(k, 0) > 0, "situation %r was never reached (coverage: %s)" % (k, sorted(cover.items())))
-    c.set_model_checking(res.states, res.transitions, res.transitions, res.samples,
+    # transitions on which the harness evaluated the oracle on the implementation state (its own counter)
+    judged = cover.get("judged-transitions", res.transitions)
+    c.set_model_checking(res.states, res.transitions, judged, res.samples,
                          exhaustive=(res.depth_completed >= depth or res.exhaustive))
     c.coverage.update({
         "depth_completed": res.depth_completed, "depth_target": depth, "per_depth": res.per_depth,
@@ -88,7 +102,7 @@ def run(pid):
         "situations_reached": {k: cover[k] for k in sorted(cover)},
         "distinct_situations": len(cover),
         "distinct_violation_signatures": len(res.sig_counts),
-        "explanation": "every transition is executed on the real occa::memoryPool of a fresh Serial device (exploration runs on the implementation, so every explored trace is an implementation trace); situation counts are over judged transitions (>= because discarded layers also count)",
+        "explanation": "every transition is executed on the real occa::memoryPool of a fresh Serial device (exploration runs on the implementation, so every explored trace is an implementation trace; traces_validated_against_impl is the harness's own count of judged transitions and also contains those of a layer that was cut off by the budget or lost with a dying worker); situation counts are over judged transitions (>= because discarded layers also count)",
     })
     c.assumptions += [
         "state key = implementation state (alignment, size, reserved, backing-buffer size, reservation set with offsets/sizes/pointer deltas) + aliasing relation of the live handles; handles are anonymous (operations address the i-th handle in (offset,size) order), which merges states that differ only in harness slot names",
